@@ -1,11 +1,27 @@
 # -*- coding: utf-8 -*-
-"""C07 - comparisons form a consistent total order with number < text < logical"""
+"""C07 - comparisons form a consistent total order with number < text < logical
+
+A case carries its operands itself (so a replay file is self-describing).  An operand is one of
+    {'v': x}                     a Python int / float / str / bool / None injected as a variable
+    {'d': [y, m, d, H, M, S, us]}  a naive datetime injected as a variable
+    {'e': 'formula text'}        an operand BORN IN THE FORMULA: a number literal or a small computation
+                                 (`0.1+0.2`), written in parentheses in the comparison; its value is what
+                                 the real implementation evaluates that text to on its own
+and a case is {'kind': 'pair', 'a': opnd, 'b': opnd, 'tz': None | POSIX-TZ-string} or
+{'kind': 'triple', 'a', 'b', 'c', 'tz'}.  With 'tz' the implementation is run while the PROCESS time zone
+(os.environ['TZ'] + time.tzset()) is that zone; the oracle and the model request are the same as without.
+"""
+import contextlib
 import datetime
+import decimal
 import itertools
+import json
+import math
+import os
+import time
 from fractions import Fraction
 
 from .. import common, fx
-from . import c06
 
 ID = 'C07'
 LEAN_MODULES = ['HotXL.Props.C07']
@@ -14,99 +30,136 @@ FUNCTIONS = ['hotxlfp.formulas.operators:ExcelComparator.__init__', 'hotxlfp.for
              'hotxlfp.formulas.operators:ExcelComparator.__eq__', 'hotxlfp.formulas.operators:ExcelComparator.__ge__',
              'hotxlfp.formulas.operators:ExcelComparator.__le__', 'hotxlfp.formulas.operators:evaluate_logic',
              'hotxlfp.formulas.operators:_both_plain_numbers',
+             'hotxlfp.formulas.utils:serialize_date', 'hotxlfp.formulas.utils:parse_date', 'hotxlfp.formulas.utils:epoch_seconds',
              'hotxlfp.grammarparser.parser:FormulaParser.p_expression_logical_operator']
-RULE = ('all ordered pairs (all six operators) and all triples (transitivity) from a pool of scalars: ints, negative and '
-        'fractional numbers, floats equal to ints, text (empty, numeric-looking, mixed case, prefixes of each other, non-ASCII), '
-        'logicals, blank, dates and date-times; quick: all pairs + seeded triples, thorough: all triples. '
-        'Non-trivial = the two operands are of different kinds or unequal.')
-TRUSTED = ['Python comparison of int/float/str/bool values (modelled: exact rationals, code-point lexicographic order)']
-ASSUMPTIONS = ['text that spells a number is text for comparison purposes (as in the code and in Excel)']
+RULE = ('(1) GENERAL POOL: all ordered pairs (all six operators) and triples (transitivity) from a pool of scalars: ints, negative '
+        'and fractional numbers, floats equal to ints, text (empty, numeric-looking, mixed case, prefixes of each other, non-ASCII), '
+        'logicals, blank, dates and date-times (quick: all pairs + seeded triples, thorough: all triples).  '
+        '(2) NEARLY EQUAL NUMBERS: clusters of distinct numbers a few ulps apart - fixed ones (0.3 / 0.1+0.2 / 0.30000000000000016 / '
+        '0.30000000000000032 and negatives, around 1.0, 1e15, 1e-15, 0 with -0.0 and denormals, 2^53 with ints and floats one unit '
+        'apart such as 9007199254740992 / 9007199254740993 / 9007199254740994.0, a date serial and the date-time it belongs to) and '
+        'seeded ones (random magnitudes 1e-12..1e15 and signs, random ints up to 2^62 with their float neighbours, members 1..16 ulps '
+        'from the centre), every member both as a variable and - where it can be written - as a number literal inside the formula; '
+        'clusters of a computed operand and its decimal value (`0.1+0.2` vs `0.3`, seeded `p+q`, `p-q`, `p*q` of short decimals); '
+        'seeded clusters of date-times 1, 3, 6, 10 microseconds, 1 ms and 1 s apart together with the doubles next to their serials; '
+        'per cluster ALL ordered pairs and ALL ordered triples, plus seeded pairs of cluster members against the general pool.  '
+        '(3) PROCESS TIME ZONE: the date-related pool (dates, date-times in and around the skipped and repeated hours of daylight-'
+        'saving zones, e.g. 2021-03-14 01:30/02:15/02:30/03:15 and 2021-11-07 01:30 for EST5EDT, the numbers equal to their serials, '
+        'blank, one text, the logicals) in all pairs and (quick: seeded, thorough: all) triples, once as is and once while the '
+        'process time zone is a POSIX TZ rule with daylight saving (quick: EST5EDT,M3.2.0,M11.1.0; thorough: also an Australian and '
+        'a European rule), plus seeded clusters of date-times around the transition days of seeded years under a seeded zone.  '
+        'Non-trivial = the operands are pairwise different.')
+TRUSTED = ['Python comparison of int/float/str/bool values (modelled: exact rationals, code-point lexicographic order)',
+           'os.environ["TZ"] + time.tzset() is how the process time zone is set (glibc POSIX TZ rules, no tz database needed); the '
+           'previous zone is restored after every evaluation, also on exceptions.  The harness\'s own reference (Excel serial of a '
+           'naive datetime) is plain timedelta/Fraction arithmetic and never consults the zone; the Lean model has no time zone, so '
+           'the same model answer is compared with the implementation\'s answer under every zone',
+           'an operand born in the formula (`0.1+0.2`, `0.30000000000000016`) is given the value Parser.parse returns for that text '
+           'alone; such pairs are judged by the oracle only (the model computes literals and arithmetic in exact decimal rationals, '
+           'so it has no opinion on float rounding)']
+ASSUMPTIONS = ['text that spells a number is text for comparison purposes (as in the code and in Excel)',
+               '"numbers order numerically" is judged EXACTLY (the rational value of the int / double); no tolerance: two doubles one '
+               'ulp apart are different numbers',
+               '"dates (by serial)": the order of the exact Excel-1900 serials (days since 1899-12-30, 1900-01-01T00:00 = 0, no '
+               '29 Feb 1900 shift before 1 March 1900 as in the code).  The code holds a serial in a double computed from '
+               'milliseconds since 1970: when a date-time whose exact serial is NOT a double is compared with something closer than '
+               'max(4 ulp of the serial, 2.5 microseconds), the answer "=" is accepted besides the exact one (never the inverted '
+               'order); everything else, including a date-time against the doubles next to its (representable) serial, is exact',
+               'transitivity is demanded of <, >, =, <= and >= on non-blank values: <= is exactly "< or =" of a total order, so it is '
+               'transitive whenever the statement holds']
 EXHAUSTIVE = {'quick': False, 'thorough': True}
 
 D = datetime.datetime
+TD = datetime.timedelta
 CMPS = ['<', '=', '>', '<=', '>=', '<>']
+TRANS = ['<', '<=', '=', '>=', '>']
+TZ_MAIN = 'EST5EDT,M3.2.0,M11.1.0'
+TZS = [TZ_MAIN, 'AEST-10AEDT,M10.1.0,M4.1.0/3', 'CET-1CEST,M3.5.0,M10.5.0/3']
+US_DAY = 86400 * 10 ** 6
 
 
-def pool():
-    return [0, 1, -1, 2, -7, 10 ** 12, 0.5, -2.25, 2.0, 1e-3, 0.0,
-            '', 'a', 'A', 'ab', 'b', '1', '10', '2', '-1', ' ', 'TRUE', 'é', 'z', 'abc', 'abd',
-            True, False, None,
-            D(1900, 1, 1), D(1900, 1, 2), D(1900, 2, 28), D(1900, 3, 1), D(2020, 1, 15), D(2020, 1, 15, 12, 0), D(2020, 1, 16),
-            D(1900, 1, 1, 12, 0)]
+# --------------------------------------------------------------------------- operands
+
+def V(x):
+    if isinstance(x, datetime.datetime):
+        return {'d': [x.year, x.month, x.day, x.hour, x.minute, x.second, x.microsecond]}
+    return {'v': x}
 
 
-def cases(rng, ctx):
-    P = pool()
-    n = len(P)
-    out = [{'kind': 'pair', 'i': i, 'j': j} for i in range(n) for j in range(n)]
-    triples = list(itertools.product(range(n), repeat=3))
-    if ctx['tier'] != 'thorough':
-        triples = rng.sample(triples, 3000 * ctx['scale'])
-    out += [{'kind': 'triple', 'i': i, 'j': j, 'k': k} for i, j, k in triples]
-    return out
+def E(text):
+    return {'e': text}
 
 
-def request(c):
-    if c['kind'] != 'pair':
-        return None
-    P = pool()
-    env = fx.env_wire(variables={'x': P[c['i']], 'y': P[c['j']]})
-    return 'c04.batch ' + ' '.join(common.enc_str('x' + op + 'y') for op in CMPS) + ' ' + env
+def okey(o):
+    return json.dumps(o, sort_keys=True)
 
 
-_p = [None]
+def var_value(o):
+    if 'd' in o:
+        return D(*o['d'])
+    return o['v']
 
 
-def vname(i):
-    return 'v_' + chr(97 + i // 26) + chr(97 + i % 26)
+def step(x, k):
+    """the double k ulps above (k>0) / below (k<0) x"""
+    x = float(x)
+    for _ in range(abs(k)):
+        x = math.nextafter(x, math.inf if k > 0 else -math.inf)
+    return x
 
 
-def parser():
-    if _p[0] is None:
-        common.load_repo()
-        import hotxlfp
-        p = hotxlfp.Parser()
-        for i, v in enumerate(pool()):
-            p.set_variable(vname(i), v)
-        _p[0] = p
-    return _p[0]
+def lit(x):
+    """formula text of a number literal that reads back as exactly x (no exponent form: the lexer has none)"""
+    if isinstance(x, int):
+        return str(x)
+    s = format(decimal.Decimal(repr(x)), 'f')
+    if '.' not in s:
+        s += '.0'
+    assert float(s) == x, (x, s)
+    return s
 
 
-_cache = {}
+def writable(x):
+    return isinstance(x, int) or (x == x and 1e-25 < abs(x) < 1e22)
 
 
-def ev(op, i, j):
-    k = (op, i, j)
-    if k not in _cache:
-        _cache[k] = parser().parse('%s%s%s' % (vname(i), op, vname(j)))
-    return _cache[k]
+# --------------------------------------------------------------------------- the statement's reference order
+
+def ref_serial(d):
+    """exact Excel-1900 serial of a naive datetime (as C13 states it); pure timedelta arithmetic, no time zone"""
+    if d == D(1900, 1, 1):
+        return Fraction(0)
+    delta = d - D(1899, 12, 30)
+    s = Fraction(delta.days) + Fraction(delta.seconds * 1000000 + delta.microseconds, US_DAY)
+    if d < D(1900, 3, 1):
+        s -= 1
+    return s
 
 
-def impl(c):
-    if c['kind'] == 'pair':
-        return [ev(op, c['i'], c['j']) for op in CMPS]
-    return None
+def representable(q):
+    return Fraction(float(q)) == q
 
 
-def agree(c, impl_ans, model_ans):
-    m = fx.parse_sexp(model_ans)
-    for rec, mm in zip(impl_ans, m):
-        if fx.record_matches(mm[1], rec) is False:
-            return False
-    return True
-
-
-# the order the statement describes: key = (rank, value)
 def key(v):
+    """the order the statement describes: key = (rank, value)"""
     if isinstance(v, bool):
         return (2, int(v))
     if isinstance(v, (int, float)):
         return (0, Fraction(v))
     if isinstance(v, datetime.datetime):
-        return (0, c06.ref_serial(v))
+        return (0, ref_serial(v))
     if isinstance(v, str):
         return (1, [ord(ch) for ch in v])
     raise ValueError(v)
+
+
+def fuzzy(v):
+    """a date-time whose exact serial is not a double"""
+    return isinstance(v, datetime.datetime) and not representable(ref_serial(v))
+
+
+def resolution(q):
+    return max(4 * Fraction(math.ulp(float(q))), Fraction(5, 2 * US_DAY))
 
 
 def as_like(blank_other):
@@ -121,50 +174,453 @@ def as_like(blank_other):
     return 0
 
 
+# --------------------------------------------------------------------------- pools and clusters
+
+def pool():
+    return [0, 1, -1, 2, -7, 10 ** 12, 0.5, -2.25, 2.0, 1e-3, 0.0,
+            '', 'a', 'A', 'ab', 'b', '1', '10', '2', '-1', ' ', 'TRUE', 'é', 'z', 'abc', 'abd',
+            True, False, None,
+            D(1900, 1, 1), D(1900, 1, 2), D(1900, 2, 28), D(1900, 3, 1), D(2020, 1, 15), D(2020, 1, 15, 12, 0), D(2020, 1, 16),
+            D(1900, 1, 1, 12, 0)]
+
+
+def fixed_number_clusters():
+    """distinct numbers a few ulps apart, as Python values"""
+    p53 = 2 ** 53
+    s3 = 44269.125     # serial of 2021-03-14 03:00
+    return [
+        [0.3, 0.1 + 0.2, 0.30000000000000016, 0.30000000000000032, 0.29999999999999993],
+        [-0.3, -(0.1 + 0.2), -0.30000000000000016, -0.30000000000000032],
+        [1, 1.0, step(1.0, -1), step(1.0, 1), step(1.0, 2), step(1.0, 4)],
+        [-1, step(-1.0, 1), step(-1.0, -1), step(-1.0, -3)],
+        [10 ** 15, 1e15, 1e15 + 0.125, 1e15 + 0.25, 1e15 - 0.125, 10 ** 15 + 1, 10 ** 15 - 1],
+        [-10 ** 15, -1e15 - 0.125, -1e15 + 0.125, -10 ** 15 - 1, -1e15 - 0.5],
+        [1e-15, step(1e-15, 1), step(1e-15, 2), step(1e-15, -1), step(1e-15, 5)],
+        [p53, p53 + 1, float(p53), float(p53) + 2, p53 - 1, p53 + 2, float(p53 - 1)],
+        [-p53, -p53 - 1, -float(p53) - 2, -p53 + 1, -float(p53)],
+        [0, -0.0, 5e-324, -5e-324, 1e-300, -1e-300, 1e-15],
+        [123456.789, step(123456.789, 1), step(123456.789, 2), step(123456.789, 3), step(123456.789, -1)],
+        [s3, step(s3, 1), step(s3, -1), step(s3, 8), D(2021, 3, 14, 3, 0), D(2021, 3, 14, 3, 0, 0, 1), D(2021, 3, 14, 2, 59, 59, 999997)],
+    ]
+
+
+def fixed_formula_clusters():
+    """the same classes with the operands born in the formula (literals and computations)"""
+    return [
+        [E('0.3'), E('0.1+0.2'), E('0.30000000000000016'), E('0.30000000000000032'), V(0.3), V(0.1 + 0.2)],
+        [E('-0.3'), E('0-0.1-0.2'), E('-0.30000000000000016'), E('-0.30000000000000032'), V(-0.3)],
+        [E('9007199254740992'), E('9007199254740993'), E('9007199254740992.0'), E('9007199254740993.0'), E('9007199254740994.0'),
+         E('9007199254740992+1'), V(float(2 ** 53))],
+        [E('1000000000000000'), E('1000000000000000.1'), E('1000000000000000.25'), E('1000000000000001'), E('999999999999999.9'),
+         E('999999999999999.9+0.1')],
+        [E('1'), E('1.0000000000000002'), E('0.9999999999999999'), E('1/3*3'), E('1.0000000000000004'), E('1-0.9+0.9'), V(1.0)],
+        [E('0.000000000000001'), E(lit(step(1e-15, 1))), E(lit(step(1e-15, 2))), E('0.001*0.000000000001'), V(1e-15)],
+        [E('4.35*100'), E('435'), E('434.99999999999994'), E('435.00000000000006'), V(435.0)],
+        [E('1.1*1.1'), E('1.21'), E('1.2100000000000002'), E('1.2100000000000004'), V(1.21)],
+        [E('44269.125'), E(lit(step(44269.125, 1))), E(lit(step(44269.125, -2))), V(D(2021, 3, 14, 3, 0)), V(44269.125)],
+    ]
+
+
+def random_number_cluster(rng):
+    k = rng.randrange(4)
+    if k == 0:        # any magnitude
+        c = rng.choice([-1, 1]) * rng.uniform(1, 10) * 10.0 ** rng.randint(-12, 15)
+    elif k == 1:      # short decimals (what a user types)
+        c = rng.choice([-1, 1]) * rng.randint(1, 9999) / 10.0 ** rng.randint(1, 4)
+    elif k == 2:      # whole numbers below 2^53: int and float forms
+        c = rng.choice([-1, 1]) * rng.randint(1, 10 ** rng.randint(1, 15))
+    else:             # whole numbers beyond 2^53: ints one apart, floats several apart
+        c = rng.choice([-1, 1]) * rng.randrange(2 ** 53, 2 ** 62)
+    vals = []
+    if isinstance(c, int):
+        vals += [c, c + 1, c - 1]
+    f = float(c)
+    vals.append(f)
+    for u in rng.sample([-16, -8, -4, -3, -2, -1, 1, 2, 3, 4, 8, 16], 4 if isinstance(c, int) else 5):
+        vals.append(step(f, u))
+    out = []
+    for v in vals:
+        if writable(v) and rng.random() < 0.3:
+            out.append(E(lit(v)))
+        else:
+            out.append(V(v))
+    return out
+
+
+def dec_text(q):
+    return format(q, 'f')
+
+
+def random_computed_cluster(rng):
+    """`p op q` of two short decimals, the decimal value of that, and the doubles around it"""
+    Dec = decimal.Decimal
+    kp, kq = rng.randint(1, 2), rng.randint(1, 2)
+    p = Dec(rng.randint(1, 999)).scaleb(-kp)
+    q = Dec(rng.randint(1, 999)).scaleb(-kq)
+    op = rng.choice('+-*')
+    if op == '-' and q > p:
+        p, q = q, p
+    exact = {'+': p + q, '-': p - q, '*': p * q}[op]
+    if exact == 0:
+        exact = p
+    f = float(exact)
+    out = [E('%s%s%s' % (dec_text(p), op, dec_text(q))), E(dec_text(exact)), V(f)]
+    for u in rng.sample([-2, -1, 1, 2], 2):
+        v = step(f, u)
+        out.append(E(lit(v)) if rng.random() < 0.5 else V(v))
+    return out
+
+
+def datetime_cluster(base, rng=None):
+    """date-times microseconds apart and the doubles next to the serial of the first"""
+    offs = [0, 1, 3, 6, 10, 1000, 10 ** 6]
+    if rng is not None:
+        offs = [0] + sorted(rng.sample(offs[1:], 4))
+    out = [V(base + TD(microseconds=o)) for o in offs]
+    q = ref_serial(base)
+    s = float(q)
+    r = resolution(q)
+    out += [V(s), V(step(s, 8)), V(step(s, -8)), V(float(q + 2 * r)), V(float(q - 2 * r))]
+    return out
+
+
+def random_datetime(rng):
+    k = rng.randrange(6)
+    if k == 0:       # Jan/Feb 1900 (the serials without the 29 Feb 1900 shift)
+        d = D(1900, 1, 1) + TD(days=rng.randrange(0, 61))
+    elif k == 1:     # far future: a double serial resolves tens of microseconds only
+        d = D(2080, 1, 1) + TD(days=rng.randrange(0, 2890000))
+    else:
+        d = D(1900, 3, 1) + TD(days=rng.randrange(0, 65000))
+    t = rng.randrange(3)
+    if t == 0:       # a time of day whose serial is a double: whole multiples of 1/8192 day
+        d += TD(microseconds=rng.randrange(8192) * 10546875)
+    elif t == 1:
+        d += TD(seconds=rng.randrange(86400))
+    else:
+        d += TD(seconds=rng.randrange(86400), microseconds=rng.randrange(10 ** 6))
+    return d
+
+
+def rule_day(year, m, w, dow):
+    """the day `Mm.w.d` of a POSIX TZ rule: week w (5 = last) of month m, day d (0 = Sunday)"""
+    first = datetime.date(year, m, 1)
+    delta = (dow - (first.weekday() + 1) % 7) % 7
+    day = first + datetime.timedelta(days=delta + 7 * (w - 1))
+    while day.month != m:
+        day -= datetime.timedelta(days=7)
+    return D(day.year, day.month, day.day)
+
+
+def tz_rules(tz):
+    """[(m, w, d)] of the two transitions named in the TZ string"""
+    out = []
+    for part in tz.split(',')[1:]:
+        m, w, d = part.split('/')[0][1:].split('.')
+        out.append((int(m), int(w), int(d)))
+    return out
+
+
+def tz_pool(tz, year=2021):
+    """the date-related pool: dates and date-times in and around the skipped / repeated hours of `tz`,
+    the numbers equal to their serials (where a double can hold them), blank, a text, the logicals"""
+    dts = [D(1900, 1, 1), D(1900, 1, 2), D(1900, 2, 28), D(1900, 3, 1), D(1900, 1, 1, 12, 0), D(1969, 12, 31, 21, 0), D(1970, 1, 1),
+           D(2020, 1, 15), D(2020, 1, 15, 12, 0), D(year, 1, 1, 12, 0), D(year, 7, 1, 12, 0)]
+    for m, w, dow in tz_rules(tz):
+        t = rule_day(year, m, w, dow)
+        dts += [t + TD(hours=1, minutes=30), t + TD(hours=2), t + TD(hours=2, minutes=15), t + TD(hours=2, minutes=30),
+                t + TD(hours=3), t + TD(hours=3, minutes=15), t - TD(hours=21, minutes=30)]
+    vals = list(dts)
+    nums = {0, 1, 61}
+    for d in dts:
+        s = ref_serial(d)
+        if representable(s):
+            nums.add(int(s) if s.denominator == 1 else float(s))
+    vals += sorted(nums)
+    vals += [None, '', 'a', True, False]
+    return [V(v) for v in vals]
+
+
+def tz_cluster(rng, tz):
+    """date-times of one night around a transition day of a seeded year, and a number between them"""
+    year = rng.randint(1971, 2037)
+    m, w, dow = rng.choice(tz_rules(tz))
+    t = rule_day(year, m, w, dow)
+    dts = set()
+    while len(dts) < 5:
+        dts.add(t + TD(hours=rng.choice([0, 1, 1, 2, 2, 2, 3, 3, 4]), minutes=rng.choice([0, 15, 30, 45, rng.randrange(60)]),
+                       seconds=rng.choice([0, 0, rng.randrange(60)])))
+    dts = sorted(dts)
+    out = [V(d) for d in dts]
+    out.append(V(D(year, (m + 5) % 12 + 1, 15, 12, 0)))           # the other season
+    s = ref_serial(t) + Fraction(rng.choice([1, 2, 3, 5]), 16)     # 01:30, 03:00, 04:30, 07:30 as a number
+    out.append(V(float(s)))
+    return out
+
+
+def _pairs(cl, tz=None):
+    return [{'kind': 'pair', 'a': a, 'b': b, 'tz': tz} for a in cl for b in cl]
+
+
+def _triples(cl, tz=None):
+    return [{'kind': 'triple', 'a': a, 'b': b, 'c': c, 'tz': tz} for a in cl for b in cl for c in cl]
+
+
+# regression witnesses of changes the earlier sweep missed (the generators reach their classes on their own)
+WITNESSES = [
+    {'kind': 'pair', 'a': E('0.3'), 'b': E('0.30000000000000016'), 'tz': None},
+    {'kind': 'triple', 'a': E('0.30000000000000032'), 'b': E('0.30000000000000016'), 'c': E('0.3'), 'tz': None},
+    {'kind': 'pair', 'a': V(D(2021, 3, 14, 2, 30)), 'b': V(D(2021, 3, 14, 3, 15)), 'tz': TZ_MAIN},
+    {'kind': 'pair', 'a': V(44269.125), 'b': V(D(2021, 3, 14, 3, 15)), 'tz': TZ_MAIN},
+]
+
+
+def cases(rng, ctx):
+    thorough = ctx['tier'] == 'thorough'
+    scale = ctx['scale']
+    out = list(WITNESSES)
+    # (1) the general pool
+    G = [V(v) for v in pool()]
+    out += _pairs(G)
+    triples = list(itertools.product(G, repeat=3))
+    if not thorough:
+        triples = rng.sample(triples, 3000 * scale)
+    out += [{'kind': 'triple', 'a': a, 'b': b, 'c': c, 'tz': None} for a, b, c in triples]
+    # (2) nearly equal numbers and date-times
+    clusters = [[V(v) for v in cl] for cl in fixed_number_clusters()]
+    clusters += [[E(lit(v)) if (isinstance(v, (int, float)) and writable(v)) else V(v) for v in cl] for cl in fixed_number_clusters()]
+    clusters += fixed_formula_clusters()
+    clusters += [datetime_cluster(D(2021, 3, 14, 2, 30)), datetime_cluster(D(2020, 1, 15, 12, 0)), datetime_cluster(D(1900, 1, 1)),
+                 datetime_cluster(D(1900, 2, 28, 23, 59, 59, 999995)), datetime_cluster(D(9999, 12, 31, 23, 59, 58))]
+    n_rand = 100 if thorough else 8 * scale
+    for _ in range(n_rand):
+        clusters.append(random_number_cluster(rng))
+    for _ in range(n_rand // 2):
+        clusters.append(random_computed_cluster(rng))
+    for _ in range(n_rand // 2):
+        clusters.append(datetime_cluster(random_datetime(rng), rng))
+    members = []
+    for cl in clusters:
+        # drop duplicates inside a cluster (two roads to the same operand)
+        seen, uniq = set(), []
+        for o in cl:
+            if okey(o) not in seen:
+                seen.add(okey(o))
+                uniq.append(o)
+        out += _pairs(uniq)
+        out += _triples(uniq)
+        members += uniq
+    # cluster members against the general pool (rank, blank) and against members of other clusters
+    for _ in range(2000 if thorough else 150 * scale):
+        a = rng.choice(members)
+        b = rng.choice(G) if rng.random() < 0.6 else rng.choice(members)
+        if rng.random() < 0.5:
+            a, b = b, a
+        out.append({'kind': 'pair', 'a': a, 'b': b, 'tz': None})
+    for _ in range(3000 if thorough else 300 * scale):
+        t = [rng.choice(members), rng.choice(members), rng.choice(G) if rng.random() < 0.5 else rng.choice(members)]
+        rng.shuffle(t)
+        out.append({'kind': 'triple', 'a': t[0], 'b': t[1], 'c': t[2], 'tz': None})
+    # (3) the date-related part once more under a process time zone with daylight saving
+    zones = TZS if thorough else [TZ_MAIN]
+    for tz in zones:
+        T = tz_pool(tz)
+        out += _pairs(T)                       # as is ...
+        out += _pairs(T, tz)                   # ... and under the zone
+        tr = list(itertools.product(T, repeat=3))
+        if not thorough:
+            tr = rng.sample(tr, 1500 * scale)
+        out += [{'kind': 'triple', 'a': a, 'b': b, 'c': c, 'tz': tz} for a, b, c in tr]
+    for _ in range(40 if thorough else 4 * scale):
+        tz = rng.choice(TZS)
+        cl = tz_cluster(rng, tz)
+        out += _pairs(cl, tz)
+        out += _triples(cl, tz)
+    for _ in range(10 if thorough else 2 * scale):
+        tz = rng.choice(TZS)
+        cl = datetime_cluster(random_datetime(rng), rng)
+        out += _pairs(cl, tz)
+        out += _triples(cl, tz)
+    return out
+
+
+# --------------------------------------------------------------------------- model request
+
+def request(c):
+    if c['kind'] != 'pair':
+        return None
+    if 'e' in c['a'] or 'e' in c['b']:
+        return None           # float rounding of literals / arithmetic: the model has no opinion
+    env = fx.env_wire(variables={'x': var_value(c['a']), 'y': var_value(c['b'])})
+    return 'c04.batch ' + ' '.join(common.enc_str('x' + op + 'y') for op in CMPS) + ' ' + env
+
+
+# --------------------------------------------------------------------------- the implementation
+
+_p = [None]
+
+
+def parser():
+    if _p[0] is None:
+        common.load_repo()
+        import hotxlfp
+        _p[0] = hotxlfp.Parser()
+    return _p[0]
+
+
+@contextlib.contextmanager
+def process_tz(tz):
+    """run the body while the process time zone is `tz`; the previous zone comes back whatever happens"""
+    if tz is None:
+        yield
+        return
+    old = os.environ.get('TZ')
+    os.environ['TZ'] = tz
+    time.tzset()
+    try:
+        yield
+    finally:
+        if old is None:
+            os.environ.pop('TZ', None)
+        else:
+            os.environ['TZ'] = old
+        time.tzset()
+
+
+_cache = {}
+_opval = {}
+
+
+def ev(op, a, b, tz, ka=None, kb=None):
+    k = (op, ka or okey(a), kb or okey(b), tz)
+    r = _cache.get(k)
+    if r is None:
+        p = parser()
+        if 'e' in a:
+            ta = '(' + a['e'] + ')'
+        else:
+            ta = 'x'
+            p.set_variable('x', var_value(a))
+        if 'e' in b:
+            tb = '(' + b['e'] + ')'
+        else:
+            tb = 'y'
+            p.set_variable('y', var_value(b))
+        with process_tz(tz):
+            r = p.parse(ta + op + tb)
+        _cache[k] = r
+    return r
+
+
+def operand_value(o):
+    """the Python value of an operand; for one born in the formula: what the implementation evaluates its text to"""
+    if 'e' not in o:
+        return var_value(o)
+    t = o['e']
+    if t not in _opval:
+        _opval[t] = parser().parse(t)
+    rec = _opval[t]
+    v = rec['result']
+    if rec['error'] is not None or isinstance(v, bool) or not isinstance(v, (int, float)):
+        raise ValueError('operand %r does not evaluate to a number: %r' % (t, rec))
+    return v
+
+
+def show(o):
+    if 'e' in o:
+        return '`%s`' % o['e']
+    return repr(var_value(o))
+
+
+def impl(c):
+    if c['kind'] == 'pair':
+        ka, kb = okey(c['a']), okey(c['b'])
+        return [ev(op, c['a'], c['b'], c.get('tz'), ka, kb) for op in CMPS]
+    return None
+
+
+def agree(c, impl_ans, model_ans):
+    if len(described(var_value(c['a']), var_value(c['b']))) > 1:
+        return True           # below the resolution of a double serial: the model's exact serial decides nothing here
+    m = fx.parse_sexp(model_ans)
+    for rec, mm in zip(impl_ans, m):
+        if fx.record_matches(mm[1], rec) is False:
+            return False
+    return True
+
+
+# --------------------------------------------------------------------------- the statement
+
 def truth(rec):
     if rec['error'] is not None or not isinstance(rec['result'], bool):
         return None
     return rec['result']
 
 
+def described(a, b):
+    """-> list of acceptable (<, =, >) answers for the values a, b (the first is the exact one)"""
+    a2 = as_like(b) if a is None else a
+    b2 = as_like(a) if b is None else b
+    if a2 is None and b2 is None:
+        return [(False, True, False)]
+    ka, kb = key(a2), key(b2)
+    want = [(ka < kb, ka == kb, ka > kb)]
+    if ka[0] == 0 and kb[0] == 0 and ka != kb and (fuzzy(a2) or fuzzy(b2)):
+        if abs(ka[1] - kb[1]) < resolution(max(abs(ka[1]), abs(kb[1]))):
+            # below the resolution of a double serial (see ASSUMPTIONS): two date-times may share a serial (serials never
+            # invert: every step of the computation is monotone); against a NUMBER the double serial may fall on either side
+            want.append((False, True, False))
+            if not (isinstance(a2, datetime.datetime) and isinstance(b2, datetime.datetime)):
+                want += [(True, False, False), (False, False, True)]
+    return want
+
+
 def oracle(c, impl_ans):
-    P = pool()
+    tz = c.get('tz')
+    where = '' if tz is None else ' [process TZ=%s]' % tz
     if c['kind'] == 'pair':
-        i, j = c['i'], c['j']
-        a, b = P[i], P[j]
-        lt, eq, gt, le, ge, ne = [truth(ev(op, i, j)) for op in CMPS]
+        oa, ob = c['a'], c['b']
+        ka, kb = okey(oa), okey(ob)
+        try:
+            a, b = operand_value(oa), operand_value(ob)
+        except ValueError:
+            return None       # an operand text that is not a number here: outside the generated class, not judged
+        recs = [ev(op, oa, ob, tz, ka, kb) for op in CMPS]
+        lt, eq, gt, le, ge, ne = [truth(r) for r in recs]
+        sa, sb = show(oa), show(ob)
         if None in (lt, eq, gt, le, ge, ne):
-            return 'comparison of %r and %r does not give a logical: %r' % (a, b, [ev(op, i, j) for op in CMPS])
+            return 'comparison of %s and %s does not give a logical: %r%s' % (sa, sb, recs, where)
         if [lt, eq, gt].count(True) != 1:
-            return 'trichotomy fails for %r, %r: <:%r =:%r >:%r' % (a, b, lt, eq, gt)
+            return 'trichotomy fails for %s, %s: <:%r =:%r >:%r%s' % (sa, sb, lt, eq, gt, where)
         if le != (lt or eq) or ge != (gt or eq) or ne != (not eq):
-            return 'derived relations wrong for %r, %r: <=:%r >=:%r <>:%r with <:%r =:%r >:%r' % (a, b, le, ge, ne, lt, eq, gt)
-        if lt != truth(ev('>', j, i)):
-            return 'a<b is %r but b>a is %r for a=%r, b=%r' % (lt, truth(ev('>', j, i)), a, b)
-        # the described order
-        a2 = as_like(b) if a is None else a
-        b2 = as_like(a) if b is None else b
-        if a2 is None and b2 is None:
-            want = (False, True, False)
-        else:
-            ka, kb = key(a2), key(b2)
-            want = (ka < kb, ka == kb, ka > kb)
-        if (lt, eq, gt) != want:
-            return '%r vs %r: got (<,=,>) = %r, the described order gives %r' % (a, b, (lt, eq, gt), want)
+            return 'derived relations wrong for %s, %s: <=:%r >=:%r <>:%r with <:%r =:%r >:%r%s' % (sa, sb, le, ge, ne, lt, eq, gt, where)
+        rev = truth(ev('>', ob, oa, tz, kb, ka))
+        if lt != rev:
+            return 'a<b is %r but b>a is %r for a=%s, b=%s%s' % (lt, rev, sa, sb, where)
+        want = described(a, b)
+        if (lt, eq, gt) not in want:
+            return '%s vs %s: got (<,=,>) = %r, the described order gives %r%s' % (sa, sb, (lt, eq, gt), want[0], where)
         return None
-    i, j, k = c['i'], c['j'], c['k']
-    if None in (P[i], P[j], P[k]):
+    ops = [c['a'], c['b'], c['c']]
+    try:
+        vals = [operand_value(o) for o in ops]
+    except ValueError:
         return None
-    if truth(ev('<', i, j)) and truth(ev('<', j, k)) and not truth(ev('<', i, k)):
-        return 'not transitive: %r < %r < %r but not %r < %r' % (P[i], P[j], P[k], P[i], P[k])
+    if None in vals:
+        return None           # transitivity is stated for non-blank values
+    k = [okey(o) for o in ops]
+    for op in TRANS:
+        if truth(ev(op, ops[0], ops[1], tz, k[0], k[1])) and truth(ev(op, ops[1], ops[2], tz, k[1], k[2])) \
+                and not truth(ev(op, ops[0], ops[2], tz, k[0], k[2])):
+            s = [show(o) for o in ops]
+            return 'not transitive: %s %s %s and %s %s %s but not %s %s %s%s' % (s[0], op, s[1], s[1], op, s[2], s[0], op, s[2], where)
     return None
 
 
 def nontrivial(c, impl_ans):
-    P = pool()
     if c['kind'] == 'pair':
-        return c['i'] != c['j']
-    return len({c['i'], c['j'], c['k']}) == 3
+        return c['a'] != c['b']
+    return c['a'] != c['b'] and c['b'] != c['c'] and c['a'] != c['c']
 
 
 def search(rng, ctx, disagreements):
